@@ -32,6 +32,14 @@ def bases():
     out.append({'min_part': 8, 'config': dict(cfg, max_request_concurrency=1), 'transfers': [{'kind': 'upload', 'src': 'nonseekable', 'size': 30}]})
     out.append({'min_part': 8, 'config': dict(cfg, max_request_concurrency=3), 'client': {'checksum': 'when_required', 'scheme': 'http'},
                 'transfers': [{'kind': 'upload', 'src': 'path', 'size': 25}]})
+    # transfers carrying the extra arguments that only some of the multipart operations accept (an argument the abort request
+    # does not know would make the cleanup itself fail)
+    ssec = {'SSECustomerAlgorithm': 'AES256', 'SSECustomerKey': 'k' * 32, 'RequestPayer': 'requester', 'ExpectedBucketOwner': '123456789012'}
+    out.append({'min_part': 8, 'config': dict(cfg), 'transfers': [{'kind': 'upload', 'src': 'path', 'size': 20,
+                                                                    'extra_args': dict(ssec, Metadata={'a': 'b'}, ACL='private', ChecksumAlgorithm='CRC32')}]})
+    out.append({'min_part': 8, 'config': dict(cfg), 'transfers': [{'kind': 'copy', 'size': 20,
+                                                                    'extra_args': dict(ssec, CopySourceSSECustomerAlgorithm='AES256', CopySourceSSECustomerKey='s' * 32,
+                                                                                       MetadataDirective='REPLACE', Metadata={'a': 'b'})}]})
     return out
 
 
